@@ -80,8 +80,8 @@ var catalogue = []tpl{
 	// ── the first short names (a, b, c) are already taken by bindings the
 	// minifier never renames; the local must get a name behind all of them ──
 	{tag: "taken-arrow-params", cls: "local", text: `function §F(§N) { return [[2, 0], [1, 0]].sort((a, b) => a[§N] - b[§N]); } console.log(§F(0));`},
-	{tag: "taken-file-scope", cls: "local", text: `var b = "fb"; function §F(§N) { return [§N, typeof a, b]; } console.log(§F("p"));`},
-	{tag: "taken-catch-param", cls: "local", text: `function §F(§N) { try { null.p; } catch (b) { return [typeof a, typeof b, §N]; } } console.log(§F("p"));`},
+	{tag: "taken-file-scope", cls: "local+globaluse", text: `var b = "fb"; function §F(§N) { return [§N, typeof a, b]; } console.log(§F("p"));`},
+	{tag: "taken-catch-param", cls: "local+globaluse", text: `function §F(§N) { try { null.p; } catch (b) { return [typeof a, typeof b, §N]; } } console.log(§F("p"));`},
 	{tag: "taken-three", cls: "local", text: `function §F(§N) { return [1, 2, 3].map((a, b, c) => a + b + c.length + §N); } console.log(§F(10));`},
 	{tag: "taken-globals", cls: "local+globaluse", text: `function §F(§N) { return [§N, a, b]; } console.log(§F("p"));`},
 
